@@ -721,6 +721,79 @@ def run_iterators(ctx, rng, pair, mode):
     ctx.count("iterations_compared")
 
 
+def class_changes_between_instances(ctx, rng, pair, mode):
+    """state that ages between two proxies: an application class gains (or loses) special methods on the owner's side - a plug-in
+    registers a protocol, a test monkeypatches - AFTER a first instance has been handed out and dropped; a second instance handed
+    out afterwards must behave like its local twin under the class as it is NOW. Also the same with a second, differently shaped
+    class of the same name made after the first one has died (the allocator may hand out the same address again)."""
+    import gc
+    a, b = pair.a, pair.b
+
+    def mk(name):
+        def __init__(self, *xs):
+            self.xs = list(xs)
+        return type(name, (object,), {"__init__": __init__, "__module__": "rv_c02_runtime"})
+    protocols = {"__len__": lambda self: len(self.xs), "__getitem__": lambda self, i: self.xs[i], "__contains__": lambda self, x: x in self.xs,
+                 "__bool__": lambda self: bool(self.xs), "__call__": lambda self, k: [k] + self.xs, "__iter__": lambda self: iter(list(self.xs))}
+    ops = [("len", lambda o: len(o)), ("getitem", lambda o: o[1]), ("contains", lambda o: 5 in o), ("bool", lambda o: bool(o)), ("call", lambda o: list(o(7))),
+           ("list", lambda o: list(o))]
+
+    def compare(proxy, twin, phase, wit):
+        for name, fn in ops:
+            try:
+                want = ("ok", view(fn(twin)))
+            except Exception as e:
+                want = ("exc", builtin_of(e))
+            try:
+                got = ("ok", view(fn(proxy)))
+            except Exception as e:
+                got = ("exc", builtin_of(e))
+            ok = issubclass(got[1], want[1]) if (want[0] == "exc" and got[0] == "exc") else got == want
+            ctx.count("steps_compared")
+            if not ok:
+                ctx.violation("C02/result-differs/%s/class-changed-between-instances/%s" % (mode, name), "%s: %s on a proxy of a NEW instance gave %r, the twin gave %r" % (
+                    phase, name, got, want), wit)
+                return False
+        return True
+    for variant in ("gains", "loses", "same-name-new-class"):
+        Cls, Twin = mk("Bag"), mk("Bag")
+        chosen = [k for k in protocols if rng.random() < .7] or ["__len__"]
+        wit = dict(mode=mode, family="class-changes-between-instances", variant=variant, methods=chosen)
+        if variant == "loses":
+            for k in chosen:
+                setattr(Cls, k, protocols[k])
+                setattr(Twin, k, protocols[k])
+        first, first_twin = Cls(1, 2, 3), Twin(1, 2, 3)
+        proxy = a._unbox(b._box(first))
+        if not compare(proxy, first_twin, "first instance", wit):
+            continue
+        del proxy, first
+        if variant == "gains":
+            for k in chosen:
+                setattr(Cls, k, protocols[k])
+                setattr(Twin, k, protocols[k])
+        elif variant == "loses":
+            for k in chosen:
+                delattr(Cls, k)
+                delattr(Twin, k)
+        else:
+            old_id = id(Cls)
+            del Cls
+            gc.collect()
+            Cls, Twin = mk("Bag"), mk("Bag")
+            for k in chosen:
+                setattr(Cls, k, protocols[k])
+                setattr(Twin, k, protocols[k])
+            if id(Cls) == old_id:
+                ctx.count("runtime_classes_reusing_an_address")
+        second, second_twin = Cls(4, 5, 6), Twin(4, 5, 6)
+        proxy = a._unbox(b._box(second))
+        compare(proxy, second_twin, "second instance after the class %s" % variant, wit)
+        del proxy, second
+        ctx.count("class_changes_between_instances")
+        ctx.case((mode, "class-changes", variant, tuple(chosen)), nontrivial=True)
+
+
 def run(ctx):
     import rpyc
     rng = ctx.rng
@@ -740,6 +813,8 @@ def run(ctx):
                 if mode != "default":
                     for i in range(ctx.budget(40, 12000)):
                         run_file_sequence(ctx, rng, pair, mode, scratch, i)
+                for i in range(ctx.budget(10, 4000)):
+                    class_changes_between_instances(ctx, rng, pair, mode)
                 for i in range(ctx.budget(150, 60000)):
                     run_iterators(ctx, rng, pair, mode)
                     if ctx.enough():
